@@ -135,7 +135,8 @@ func (r *Run) callSeqRec(fd *FuncDecl, onPath map[*FuncDecl]bool, depth int) []s
 				sfx = strings.Join(lc, " / ")
 			}
 			inl := r.callSeqRec(it.helper, onPath, depth+1)
-			if len(inl) == 0 {
+			if len(inl) == 0 || (it.helper.Obj.Exported() && !r.G.isNewFunc(it.helper.Obj)) {
+				// an exported one-liner keeps its own name too: *which* accessor is called matters
 				out = append(out, it.text)
 			} else {
 				// remembered so that a reference taken when the helper made no calls of its own is still met
